@@ -173,16 +173,13 @@ DecPrim(kt, flex, nul, bs, pos) ==
     [] kt \in {"bytes", "records"} ->
          IF flex THEN DecCompactBlob(bs, pos, nul, FALSE) ELSE DecLegacyBytes(bs, pos, nul)
 
-DecArrLen(flex, bs, pos) ==          \* val is a native int: -1 null, -2 huge, -3 negative
+DecArrLen(flex, bs, pos) ==          \* val is a native int: -1 null, < -1 invalid
   IF flex THEN
     LET h == DecUVarBits(bs, pos, MaxVarintBytes) IN
-    IF ~h.ok THEN Err(h.err, h.pos)
-    ELSE LET l == LenOfBits(h.val) IN Ok(IntV(IF l >= 0 THEN l - 1 ELSE l), h.pos)
+    IF ~h.ok THEN Err(h.err, h.pos) ELSE Ok(IntV(LenOfBits(h.val) - 1), h.pos)
   ELSE
     LET h == DecFixed(bs, pos, 4, TRUE) IN
-    IF ~h.ok THEN h
-    ELSE LET l == LenOfBits(ValBits(h.val)) IN
-         Ok(IntV(IF l = -2 THEN -2 ELSE IF l < -1 THEN -3 ELSE l), h.pos)
+    IF ~h.ok THEN h ELSE Ok(IntV(LenOfBits(ValBits(h.val))), h.pos)
 
 RECURSIVE DecStruct(_, _, _), DecField(_, _, _, _, _)
 
@@ -195,8 +192,7 @@ DecField(s, f, bs, pos, tagged) ==
     LET h == DecArrLen(FieldFlex(s, f), bs, pos) IN
     IF ~h.ok THEN h
     ELSE IF h.val.int = -1 THEN (IF f.nul THEN Ok(NullV, h.pos) ELSE Err("unexpected_null", h.pos))
-    ELSE IF h.val.int = -3 THEN Err("value_error", h.pos)
-    ELSE IF h.val.int = -2 THEN Err("underflow", Len(bs))
+    ELSE IF h.val.int < -1 THEN Err("value_error", h.pos)
     ELSE LET RECURSIVE items(_, _, _)
              items(k, p, acc) ==
                IF k = 0 THEN Ok(SeqV(acc), p)
@@ -235,8 +231,6 @@ DecTagSection(s, bs, pos) ==
                ELSE loop(k - 1, r.pos, tag, (i :> r.val) @@ seen)
           ELSE loop(k - 1, z.pos + size, tag, seen)      \* unknown tag: skip by size
   IN IF ~cnt.ok THEN [ok |-> FALSE, err |-> cnt.err, val |-> <<>>, pos |-> cnt.pos]
-     ELSE IF LenOfBits(cnt.val) < 0
-          THEN [ok |-> FALSE, err |-> "underflow", val |-> <<>>, pos |-> Len(bs)]
      ELSE loop(LenOfBits(cnt.val), cnt.pos, -1, <<>>)
 
 DecStruct(s, bs, pos) ==
